@@ -83,6 +83,11 @@ class RSABinding(CryptographyBinding):
 
     @staticmethod
     def import_public_key(obj: RSADictKey) -> RSAPublicKey:
+        # prime factors and CRT values belong to a private key; a JWK that
+        # has them but no "d" is neither a public nor a private key
+        for name in ("p", "q", "dp", "dq", "qi", "oth"):
+            if name in obj:
+                raise ValueError(f'RSA key with "{name}" must include "d"')
         numbers = RSAPublicNumbers(base64_to_int(obj["e"]), base64_to_int(obj["n"]))
         return numbers.public_key(default_backend())
 
